@@ -543,6 +543,7 @@ func main() {
 	o.DeclareSuite("seq", "From Verif Require Import C10.Model.", "case", "run_case")
 	o.DeclareSuite("forced", "From Verif Require Import C10.Model.", "case", "run_case")
 	o.DeclareSuite("plugin", "From Verif Require Import C10.Model C10.Plugin C10.Scrape.", "case_mplugin", "run_mplugin")
+	o.DeclareSuite("plugin_outside", "From Verif Require Import C10.Model C10.Plugin C10.Scrape C10.PluginCheck.", "case_mplugin", "run_plugin_outside")
 	o.DeclareSuite("atomic", "From Verif Require Import C10.Model C10.Split.", "case_atomic", "run_atomic")
 	o.DeclareSuite("timer", "From Verif Require Import C10.Model.", "case_timer", "run_timer")
 	o.Rule("seq: random sequential mock-clock histories (quota 1-3, queue size 1-4, windows 1 us/250 ms/1 s, " +
@@ -563,10 +564,13 @@ func main() {
 		"timer: every third seq/forced history with a roll-over pass again, observable = the deadline of the timer the " +
 		"roll-over goroutine re-arms after each pass (model: next_tick = window end after the Tick); " +
 		"non-trivial (plugin) = somebody waited, somebody was released by a roll-over and somebody was refused, or a " +
-		"request really was blocked behind / concurrent with a queue construction")
+		"request really was blocked behind / concurrent with a queue construction; plugin_outside: the plugin cases in which " +
+		"a roll-over pass released somebody or a waiter expired (quick: the first 120), evaluated by PluginCheck.run_plugin_outside = " +
+		"the decidable side condition outsideb of C10_plugin_holds_outside_findings_decidable holds for every remedy key of the " +
+		"executed history (no F-C10 / F-C10b event in any queue instance)")
 	var raw json.RawMessage
 	if suite, ok := o.ReplayCase(&raw); ok {
-		if suite == "plugin" {
+		if suite == "plugin" || suite == "plugin_outside" {
 			var pk PCase
 			if err := json.Unmarshal(raw, &pk); err != nil {
 				panic(err)
